@@ -7,6 +7,7 @@ import (
 	"os"
 	"os/exec"
 	"path/filepath"
+	"sort"
 	"strconv"
 	"strings"
 	"sync"
@@ -115,8 +116,110 @@ func (r *rng) disciplineProgram() (*SX, bool) {
 	return mustSX("((repeat " + strings.Join(parts, " ") + "))"), hasCheck
 }
 
+type c08Machine interface {
+	rapid.StateMachine
+	log() *[]string
+	names() []string
+}
+
+// TB methods before and after *T methods, two TB methods
+type c08SMa struct{ l []string }
+
+func (s *c08SMa) log() *[]string        { return &s.l }
+func (s *c08SMa) names() []string       { return []string{"", "Alpha", "Beta", "Delta", "Gamma"} }
+func (s *c08SMa) Alpha(t rapid.TB)      { s.l = append(s.l, "Alpha") }
+func (s *c08SMa) Beta(t *rapid.T)       { s.l = append(s.l, "Beta") }
+func (s *c08SMa) Delta(t *rapid.T)      { s.l = append(s.l, "Delta") }
+func (s *c08SMa) Gamma(t rapid.TB)      { s.l = append(s.l, "Gamma") }
+func (s *c08SMa) Check(t *rapid.T)      { s.l = append(s.l, "Check") }
+func (s *c08SMa) Helper(a, b int) int   { return a + b } // not an action
+func (s *c08SMa) unexported(t *rapid.T) {}
+
+// only TB methods, the last action in alphabetical order takes *T
+type c08SMb struct{ l []string }
+
+func (s *c08SMb) log() *[]string   { return &s.l }
+func (s *c08SMb) names() []string  { return []string{"", "Pop", "Push", "Zap"} }
+func (s *c08SMb) Pop(t rapid.TB)   { s.l = append(s.l, "Pop") }
+func (s *c08SMb) Push(t rapid.TB)  { s.l = append(s.l, "Push") }
+func (s *c08SMb) Zap(t *rapid.T)   { s.l = append(s.l, "Zap") }
+func (s *c08SMb) Check(t *rapid.T) { s.l = append(s.l, "Check") }
+
+func keysOf(m map[string]bool) []string {
+	var out []string
+	for k := range m {
+		out = append(out, k)
+	}
+	sort.Strings(out)
+	return out
+}
+
 func init() {
 	monitors["C08"] = func(r *rng, scale int, m *monOut, tmp string) {
+		// StateMachineActions: every action of the map runs the method it is named after (methods taking *T and
+		// methods taking TB, in any alphabetical arrangement), the entry "" runs Check; and a Repeat over the map
+		// follows the check/action discipline with exactly those methods
+		for _, sm := range []c08Machine{&c08SMa{}, &c08SMb{}} {
+			log := sm.log()
+			actions := rapid.StateMachineActions(sm)
+			m.tag("state-machine-actions")
+			m.eval(fmt.Sprintf("sm-actions %T", sm), true)
+			t := rapid.VerifNewT(newRecTB("c08sm"), rapid.VerifRandStream(r.u64(), false), false)
+			var names []string
+			for name := range actions {
+				names = append(names, name)
+			}
+			sort.Strings(names)
+			if want := sm.names(); fmt.Sprint(names) != fmt.Sprint(want) {
+				m.violate(violation{"C08", "sm-actions", fmt.Sprintf("%T: actions %v, want %v", sm, names, want), map[string]string{}})
+			}
+			for _, name := range names {
+				*log = nil
+				func() {
+					defer func() {
+						if p := recover(); p != nil {
+							*log = append(*log, fmt.Sprintf("panic: %v", p))
+						}
+					}()
+					actions[name](t)
+				}()
+				want := name
+				if name == "" {
+					want = "Check"
+				}
+				if fmt.Sprint(*log) != fmt.Sprint([]string{want}) {
+					m.violate(violation{"C08", "sm-actions", fmt.Sprintf("%T: the action %q ran %v", sm, name, *log), map[string]string{"action": name}})
+				}
+			}
+			*log = nil
+			fl := baseFlags()
+			fl.Checks = 20
+			fl.Seed = r.u64() | 1
+			tb := newRecTB("c08smr")
+			withFlags(fl, func() {
+				runTB(func() {
+					rapid.VerifCheckTB(tb, farDeadline(), func(t *rapid.T) {
+						*log = append(*log, "|")
+						t.Repeat(rapid.StateMachineActions(sm))
+					})
+				})
+			})
+			seen := map[string]bool{}
+			prev := "|"
+			for _, e := range *log {
+				seen[e] = true
+				if e != "Check" && e != "|" && prev != "Check" {
+					m.violate(violation{"C08", "sm-actions", fmt.Sprintf("%T: action %s ran after %s, not after Check", sm, e, prev), map[string]string{}})
+					break
+				}
+				prev = e
+			}
+			for _, name := range sm.names() {
+				if name != "" && !seen[name] {
+					m.violate(violation{"C08", "sm-actions", fmt.Sprintf("%T: in 20 runs of Repeat the action %s never ran (ran: %v)", sm, name, keysOf(seen)), map[string]string{}})
+				}
+			}
+		}
 		for i := 0; i < 40*scale; i++ {
 			prog, hasCheck := r.disciplineProgram()
 			fl := baseFlags()
@@ -690,6 +793,42 @@ func init() {
 				m.eval(src+fmt.Sprint(bs), signalled)
 				if signalled && !strings.HasPrefix(out, "fail") {
 					m.violate(violation{"C13", "fuzz", fmt.Sprintf("a recorded failure followed by a deferred skip/overrun gave %q, want fail", out), map[string]string{"prog": src, "bytes": fmt.Sprint(bs)}})
+				}
+			}
+		}
+		// properties that never fail, with draws of zero bits in them (a one-element choice, the forced stop of a loop
+		// after rejections, a constant regexp): whatever prefix of an input is given — also one that ends exactly before
+		// such a draw — the outcome is skip or pass
+		for _, src := range []string{
+			"((draw a (u 0 255)) (draw j (sampled 1)) (draw b (u 0 255)) (draw k (sampled 1)))",
+			"((draw j (sampled 1)) (draw a (bool)) (draw k (sampled 1)))",
+			"((draw a (distinct (i 0 1) 0 -1 (id))) (draw b (bool)))",
+			"((repeat (act (draw x (u 0 3)) (skip)) (act (draw y (bool)))))",
+			"((draw a (slice (sampled 1) 0 4)) (draw b (distinct (i 0 2) -1 -1 (id))))",
+		} {
+			prog := mustSX(src)
+			for round := 0; round < 2*scale; round++ {
+				full := make([]byte, 160)
+				ws := rapid.VerifJsf(r.u64(), len(full)/8)
+				for j := range full {
+					full[j] = byte(ws[j/8] >> (8 * uint(j%8)))
+				}
+				if round%2 == 1 {
+					for j := range full {
+						if j%8 != 0 {
+							full[j] = 0 // small words: many short draws, many loop iterations
+						}
+					}
+				}
+				for l := 0; l <= len(full); l++ {
+					out, _ := fuzzOutcome(prog, full[:l])
+					m.tag("zero-width-prefix")
+					m.eval(fmt.Sprintf("zw %s %d %d", src, round, l), true)
+					if !strings.HasPrefix(out, "skip") && !strings.HasPrefix(out, "pass") {
+						m.violate(violation{"C13", "fuzz", fmt.Sprintf("a property that never fails, on the first %d bytes of an input: outcome %q", l, out),
+							map[string]string{"prog": src, "bytes": fmt.Sprint(full[:l])}})
+						break
+					}
 				}
 			}
 		}
